@@ -54,6 +54,12 @@ func (msg Message) generateUnmarshalBebop(w *iohelp.ErrorWriter, settings Genera
 	writeLine(w, "\t}")
 	writeLine(w, "\tbodyLen := iohelp.ReadUint32Bytes(buf[at:])")
 	writeLine(w, "\tbuf = buf[4:]")
+	// the body is exactly as long as it says: nothing in it is decoded from bytes beyond
+	// its end (which the enclosing record will decode again)
+	writeLine(w, "\tif uint64(len(buf)) < uint64(bodyLen) {")
+	writeLine(w, "\t\treturn io.ErrUnexpectedEOF")
+	writeLine(w, "\t}")
+	writeLine(w, "\tbuf = buf[:bodyLen]")
 	writeLine(w, "\tfor {")
 	writeLine(w, "\t\tif len(buf) <= at {")
 	writeLine(w, "\t\t\treturn io.ErrUnexpectedEOF")
@@ -68,10 +74,7 @@ func (msg Message) generateUnmarshalBebop(w *iohelp.ErrorWriter, settings Genera
 	}
 	writeLine(w, "\t\tdefault:")
 	// the terminator, or a field this version does not know: the rest of the body is
-	// skipped unread, but it has to be there
-	writeLine(w, "\t\t\tif uint64(len(buf)) < uint64(bodyLen) {")
-	writeLine(w, "\t\t\t\treturn io.ErrUnexpectedEOF")
-	writeLine(w, "\t\t\t}")
+	// skipped unread (it is there: checked above)
 	writeLine(w, "\t\t\treturn nil")
 	writeLine(w, "\t\t}")
 	writeLine(w, "\t}")
